@@ -17,7 +17,8 @@ SEGMENTS = {"-1": 4, "2/m": 2, "mmm": 1, "4/mmm": 1, "4/m": 2, "6/mmm": 1, "6/m"
 
 def units(tier):
     n = 25 if tier == "quick" else 300
-    return [(i, n) for i in range(len(GR.SETTINGS))]
+    # the settings whose scan tables are the intricate ones (Laue -1, 2/m and the rhombohedral settings) get three times the cases
+    return [(i, n * 3 if (i < 15 or i >= 230) else n) for i in range(len(GR.SETTINGS))]
 
 
 def strategy(tier, unit):
